@@ -26,25 +26,29 @@ CONSTANTS MaxRuns,      \* runs per behaviour
           Shifts, Mods, \* variants of the report set: file F1 shifted by one line; which lines are modified
           Probs,        \* the problems that may be reported (subset of Problems)
           Pads,         \* numbers of old review comments of other people that precede everything else on the pull request
-          Padfs         \* numbers of other files of the pull request listed before the rule files
+          Padfs,        \* numbers of other files of the pull request listed before the rule files
+          Showdups      \* subset of BOOLEAN: --show-duplicates
 
 -----------------------------------------------------------------------------
 (* The universe of problems: 4 problems over 2 files. P1 and P2 come from   *)
 (* the same check with the same severity on the same lines (one comment).  *)
-Problems == {"P1", "P2", "P3", "P4"}
-ProbOrder == <<"P1", "P2", "P3", "P4">>          \* order after Summary.SortReports
+(* P5 and P6 are two problems of one check with the same message whose line ranges start on the same line and end  *)
+(* on different ones (alerts/template "use humanize filters": expression line .. annotation line); Summary.Dedup     *)
+(* folds P6 into P5 as a duplicate, so they are reported separately only with --show-duplicates (cfg.showdup).       *)
+Problems == {"P1", "P2", "P3", "P4", "P5", "P6"}
+ProbOrder == <<"P1", "P2", "P3", "P5", "P6", "P4">>          \* order after Summary.SortReports
 PFile(p)  == IF p = "P4" THEN "F2" ELSE "F1"
-PSev(p)   == IF p = "P3" THEN "Bug" ELSE "Warning"
-PRep(p)   == IF p = "P3" THEN "alerts/template" ELSE "promql/regexp"
-PFirst(p) == CASE p \in {"P1", "P2"} -> 6 [] p = "P3" -> 11 [] OTHER -> 5
-PLast(p)  == CASE p \in {"P1", "P2"} -> 8 [] p = "P3" -> 14 [] OTHER -> 5
+PSev(p)   == CASE p = "P3" -> "Bug" [] p \in {"P5", "P6"} -> "Information" [] OTHER -> "Warning"
+PRep(p)   == IF p \in {"P3", "P5", "P6"} THEN "alerts/template" ELSE "promql/regexp"
+PFirst(p) == CASE p \in {"P1", "P2"} -> 6 [] p = "P3" -> 11 [] p \in {"P5", "P6"} -> 16 [] OTHER -> 5
+PLast(p)  == CASE p \in {"P1", "P2"} -> 8 [] p = "P3" -> 14 [] p = "P5" -> 18 [] p = "P6" -> 19 [] OTHER -> 5
 
 Variants == [shift : Shifts, mod : Mods]
 ShiftOf(f, v) == IF f = "F1" THEN v.shift ELSE 0
 \* lines of file f touched by the pull request under variant v
 Modified(f, v) ==
   IF f = "F2" THEN 4..7
-  ELSE IF v.mod = "all" THEN (4 + v.shift)..(14 + v.shift) ELSE {6 + v.shift}
+  ELSE IF v.mod = "all" THEN (4 + v.shift)..(19 + v.shift) ELSE {6 + v.shift}
 SetMax(S) == CHOOSE x \in S : \A y \in S : y <= x
 SetMin(S) == CHOOSE x \in S : \A y \in S : x <= y
 
@@ -165,24 +169,31 @@ RunFold(c, st, pend, v) ==
 (* A comment carries problem P when its text spells P out: P \in text.m.    *)
 RangeSeq(s) == {s[k] : k \in 1..Len(s)}
 DocShift(p, v) == ShiftOf(PFile(p), v)
-\* "at its file and line": somewhere on the lines of the problem; GitHub only accepts modified lines, a
-\* problem without one is shown on the first modified line of the file
-AtItsLine(plat, p, v, c) ==
-  /\ c.path = PFile(p)
-  /\ \/ c.line \in (PFirst(p) + DocShift(p, v))..(PLast(p) + DocShift(p, v))
-     \/ /\ plat = "github" /\ Modified(PFile(p), v) # {}
-        /\ Modified(PFile(p), v) \cap ((PFirst(p) + DocShift(p, v))..(PLast(p) + DocShift(p, v))) = {}
-        /\ c.line = SetMin(Modified(PFile(p), v))
+\* "at its file and line": the line pint comments a problem on is the last line of its range that the pull request
+\* modified, else the last line of the range; GitHub only accepts modified lines, a problem without one is shown on
+\* the first modified line of the file (written here from the documentation/changelog, not from makeComments)
+ClassOf(p) == <<PRep(p), PSev(p), PFile(p), PFirst(p), PLast(p)>>
+AtItsLine(plat, p, v, c) == c.path = PFile(p) /\ c.line = DocLine(plat, ClassOf(p), v)
 CoversProblem(plat, p, v, c) == AtItsLine(plat, p, v, c) /\ p \in c.text.m
 SameComment(a, b) == a.path = b.path /\ a.line = b.line /\ a.text = b.text
 \* problems of one check on the same lines share a comment
-Classes(R) == {<<PRep(p), PSev(p), PFile(p), PFirst(p), PLast(p)>> : p \in R}
+Classes(R) == {ClassOf(p) : p \in R}
 CeilDiv(a, b) == (a + b - 1) \div b
 
 Covered(o) ==
   /\ Len(o.creates) <= o.max
   /\ \A p \in o.reports : \/ \E k \in 1..Len(o.after) : CoversProblem(o.plat, p, o.var, o.after[k])
                           \/ Len(o.creates) = o.max                  \* the rest waits for a later run
+\* "one that already existed and was recognised": a problem class whose comment existed before the run (on its
+\* file, on the line pint comments on, spelling out exactly the reported problems of the class, visible to pint)
+\* is not waiting for the budget - it is still covered afterwards.
+ClassMembers(R, K) == {p \in R : ClassOf(p) = K}
+ExactCover(plat, R, K, v, c) == c.path = K[3] /\ c.line = DocLine(plat, K, v) /\ c.text.m = ClassMembers(R, K)
+Recognisable(plat, c) == plat = "github" \/ c.mine
+KeepsCovered(o) ==
+  \A K \in Classes(o.reports) :
+    (\E n \in 1..Len(o.before) : Recognisable(o.plat, o.before[n]) /\ ExactCover(o.plat, o.reports, K, o.var, o.before[n]))
+      => \E k \in 1..Len(o.after) : ExactCover(o.plat, o.reports, K, o.var, o.after[k])
 NoTwin(o) ==
   \A k \in 1..Len(o.creates) : ~\E n \in 1..Len(o.before) : o.before[n].mine /\ SameComment(o.before[n], o.creates[k])
 Corresponds(o, c) == \E p \in o.reports : CoversProblem(o.plat, p, o.var, c)
@@ -199,8 +210,8 @@ Converges(o) ==
 \* what is deleted was listed, what is new is what was created
 Accounting(o) == o.after = RemoveAll(o.before, o.deleted, Len(o.before)) \o o.creates
 
-DocFails(o) == {n \in {"Covered", "NoTwin", "StaleGone", "ForeignUntouched", "Idempotent", "Converges", "Accounting"} :
-   CASE n = "Covered" -> ~Covered(o) [] n = "NoTwin" -> ~NoTwin(o) [] n = "StaleGone" -> ~StaleGone(o)
+DocFails(o) == {n \in {"Covered", "KeepsCovered", "NoTwin", "StaleGone", "ForeignUntouched", "Idempotent", "Converges", "Accounting"} :
+   CASE n = "Covered" -> ~Covered(o) [] n = "KeepsCovered" -> ~KeepsCovered(o) [] n = "NoTwin" -> ~NoTwin(o) [] n = "StaleGone" -> ~StaleGone(o)
      [] n = "ForeignUntouched" -> ~ForeignUntouched(o) [] n = "Idempotent" -> ~Idempotent(o)
      [] n = "Converges" -> ~Converges(o) [] OTHER -> ~Accounting(o)}
 
@@ -231,7 +242,7 @@ NoInp == [reports |-> {}, var |-> [shift |-> 0 - 1, mod |-> "none"]]
 AllVariants == [shift : {0, 1}, mod : {"all", "first"}]
 OwnCands(plat) ==
   UNION {{[path |-> c.path, line |-> FixLine(plat, c.path, c.line, v), text |-> c.text, nl |-> 1, mine |-> TRUE] :
-            c \in RangeSeq(MakeComments(R, v))} : <<R, v>> \in (SUBSET Problems) \X Variants}
+            c \in RangeSeq(MakeComments(R, v))} : <<R, v>> \in (SUBSET Probs) \X Variants}
 SeedCands(plat) ==
   OwnCands(plat)
   \cup {[path |-> "F1", line |-> 8, text |-> StaleText, nl |-> 1, mine |-> TRUE],
@@ -250,7 +261,8 @@ CandSeq(plat) == IF plat = "gitlab" THEN CandGL ELSE CandGH
 \* returns them first). They equal no pending comment and pint may not delete them, so they take no part in the
 \* reconciliation; the real reporters have to page through them (GitLab 20, GitHub 30 per page).
 \* cfg.padf: likewise other changed files listed before the rule files in the pull request's file list.
-Init == /\ cfg \in [plat : Platforms, max : Budgets, strip : Strips, pad : Pads, padf : Padfs]
+ProbsOf(c) == IF c.showdup THEN Probs ELSE Probs \ {"P5", "P6"}
+Init == /\ cfg \in [plat : Platforms, max : Budgets, strip : Strips, pad : Pads, padf : Padfs, showdup : Showdups]
         /\ store = <<>> /\ pc = "seed" /\ runs = 0 /\ inp = NoInp
         /\ before = <<>> /\ existing = <<>> /\ pending = <<>>
         /\ i = 0 /\ j = 0 /\ created = 0 /\ newc = <<>> /\ deleted = {}
@@ -319,7 +331,7 @@ Summary ==
   /\ UNCHANGED <<cfg, store, lastSeed, hist>>
 
 Next == \/ pc = "seed" /\ \E k \in 1..Len(CandSeq(cfg.plat)) : Seed(k)
-        \/ \E R \in SUBSET Probs, v \in Variants : StartRun(R, v)
+        \/ \E R \in SUBSET ProbsOf(cfg), v \in Variants : StartRun(R, v)
         \/ CreateStep \/ DeleteStep \/ Summary
 Spec == Init /\ [][Next]_vars
 
@@ -339,7 +351,7 @@ RunAtomic(R, v) ==
   /\ UNCHANGED <<cfg, inp, before, existing, pending, i, j, created, newc, deleted, lastSeed>>
 
 MacroNext == \/ pc = "seed" /\ \E k \in 1..Len(CandSeq(cfg.plat)) : Seed(k)
-             \/ \E R \in SUBSET Probs, v \in Variants : RunAtomic(R, v)
+             \/ \E R \in SUBSET ProbsOf(cfg), v \in Variants : RunAtomic(R, v)
 MacroSpec == Init /\ [][MacroNext]_vars
 \* GEN (simulation): a case is the configuration, the seeded comments and the run inputs; what the runs do
 \* is computed by JUDGE (RunFold) when the recorded behaviour is validated, so it is not computed here.
@@ -351,7 +363,7 @@ GenRun(R, v) ==
   /\ UNCHANGED <<cfg, store, inp, before, existing, pending, i, j, created, newc, deleted,
                  prevInp, prevCreates, streak, lastSeed>>
 GenNext == \/ pc = "seed" /\ \E k \in 1..Len(CandSeq(cfg.plat)) : Seed(k)
-           \/ runs < MaxRuns /\ \E R \in SUBSET Probs, v \in Variants : GenRun(R, v)
+           \/ runs < MaxRuns /\ \E R \in SUBSET ProbsOf(cfg), v \in Variants : GenRun(R, v)
            \/ /\ runs >= 1 /\ runs < MaxRuns                        \* the same results again (a re-run of the CI job)
               /\ GenRun(hist.runs[Len(hist.runs)].reports, hist.runs[Len(hist.runs)].var)
            \/ /\ pc = "idle" /\ runs = MaxRuns /\ pc' = "done"     \* Finish: a single successor, so one CASE per trace
@@ -373,6 +385,7 @@ Prop_C17 == [][StepOK]_vars
 (* Properties (checked when a run is complete)                              *)
 AtEnd == pc = "summary"
 Inv_Covered    == AtEnd => Covered(Obs)
+Inv_KeepsCovered == AtEnd => KeepsCovered(Obs)
 Inv_NoTwin     == AtEnd => NoTwin(Obs)
 Inv_StaleGone  == AtEnd => StaleGone(Obs)
 Inv_Foreign    == AtEnd => ForeignUntouched(Obs)
@@ -390,6 +403,6 @@ Never_ConvergesLate   == ~(AtEnd /\ Obs.max = 1 /\ Obs.streak = 3 /\ Cardinality
 
 \* GEN: one case per finished behaviour
 EmitCase == (pc = "done") =>
-  PrintT(<<"CASE", ToJson([plat |-> cfg.plat, max |-> cfg.max, strip |-> cfg.strip, pad |-> cfg.pad, padf |-> cfg.padf,
+  PrintT(<<"CASE", ToJson([plat |-> cfg.plat, max |-> cfg.max, strip |-> cfg.strip, pad |-> cfg.pad, padf |-> cfg.padf, showdup |-> cfg.showdup,
                            seeds |-> hist.seeds, runs |-> hist.runs])>>)
 =============================================================================
